@@ -137,6 +137,7 @@ type File struct {
 	Objects                     map[uint64]*Object
 	Paths                       map[string]uint64
 	Extents                     []Extent
+	Marks                       []uint64 // absolute offsets of object header message boundaries (inside the header extents)
 	Deviations                  map[string]int
 	GlobalHeaps                 map[uint64]*GCol
 	Unsupported                 []string // features met that this decoder does not implement (decoding continued around them)
